@@ -208,7 +208,7 @@ def main():
         }],
         "checks": checks,
         "not_applicable": na,
-        "notes": "Static analysis only. fix: commits in /repo repair genuine defects found by the rules (see known_findings.json `fixed`).",
+        "notes": "Static analysis only. quick = fact extraction (cached by content hash of /repo) + all rules of the property; thorough = quick + canary self-test (selftest/*.diff applied to a scratch copy of the current tree; the rule must fire and name the instance) + compile-fail witnesses (witness/, cargo +nightly test --doc) for C04/C05/C14/C19. fix: commits in /repo repair genuine defects found by the rules (see known_findings.json `fixed`).",
     }
     with open(os.path.join(VERIF, "MANIFEST.json"), "w") as fh:
         json.dump(m, fh, indent=1, ensure_ascii=False)
